@@ -809,3 +809,11 @@ Proof.
   destruct (SgP _ _ Hk) as (gP & GP & VP). destruct (SgR _ _ Hk) as (gR & GR & VR).
   apply verify_state_binds in VP, VR. subst gP gR. rewrite StR in GR. auto.
 Qed.
+
+(* the hypothesis of no_panic is needed in the model: a registered parent whose state had a single
+   participant column (no real channel has one) would make transformBalances index out of range *)
+Definition exCtxNarrow : octx :=
+  mkCtx wA [kA1] [mkCI idL3 [pa kA2; pa kI1] [wA; wI] 0 (mkAlloc [0] [7] [[5]%Z] [])].
+Example no_panic_needs_ctx_ok :
+  ctx_ok exCtxNarrow = false /\ handle_proposal exCtxNarrow wB exVirtGood = Panic.
+Proof. split; vm_compute; reflexivity. Qed.
